@@ -400,6 +400,15 @@ def stat_opts(F, c, ns, nc, bi, steps):
             F.int(c, "burn_in", bi), F.int(c, "steps", steps)]
 
 
+
+def _fill_biases(st):
+    """deterministic (RNG-free) non-zero biases on every network, a function of the parameter shapes only"""
+    for net in st.networks:
+        for name, p_ in getattr(st, net).named_parameters():
+            if "bias" in name:
+                p_.data.add_(0.05 * (1.0 + torch.arange(p_.numel(), dtype=torch.double)) * (-1.0 if "hidden" in name else 1.0))
+
+
 def do_op(op, states, workdir):
     t = op["t"]
     F = FORMS[0] = Forms(op)
@@ -439,15 +448,18 @@ def do_op(op, states, workdir):
         # deterministic (RNG-free) non-zero biases on every network, incl. the phase network's auxiliary bias, so that
         # "evaluation never changes a parameter" is examined away from the all-zero initialisation
         if op.get("fill", True):
-            for net in st.networks:
-                for name, p_ in getattr(st, net).named_parameters():
-                    if "bias" in name:
-                        p_.data.add_(0.05 * (1.0 + torch.arange(p_.numel(), dtype=torch.double)) * (-1.0 if "hidden" in name else 1.0))
+            _fill_biases(st)
         states.append(st)
         return None
     st = states[op["slot"]]  # IndexError for a missing slot
     if t == "reinit":
         st.reinitialize_parameters()
+        # the same RNG-free fill as after construction: "parameters after an initialisation" is then ONE function of (architecture,
+        # draws) for both operations, which is what the token model assumes.  (Without it a history in which two seeds equal modulo
+        # 2^32 are each followed by the same number of draws and an initialisation of the same architecture made the model predict
+        # equal parameters where the recorded ones differed by the fill: clean-tree alarm at VERIF_SEED=52, notes/C14.md.)
+        if op.get("fill", True):
+            _fill_biases(st)
         return None
     if t == "sample":
         init = tens(op["init"]) if op.get("init") is not None else None
